@@ -431,6 +431,16 @@ CHOICE_encode_der(const asn_TYPE_descriptor_t *td, const void *sptr,
 		if(ret == -1)
 			ASN__ENCODE_FAILED;
 		computed_size += ret;
+
+		if(!cb) {
+			/*
+			 * Only estimating the size: the member has just been
+			 * measured. Measuring it again would double the work at
+			 * each level of nested tagged CHOICE types.
+			 */
+			erval.encoded += computed_size;
+			return erval;
+		}
 	}
 
 	/*
